@@ -1,6 +1,12 @@
 #!/bin/sh
 # Build /repo with the LLBUILD_VERIF guard OFF (the pre-configured /repo/_build tree has no such define)
-# and run the pinned test suite.
+# and run the pinned test suite (the gtest binaries of /repo/_build/bin; ctest registers none of them).
 set -e
 cmake --build /repo/_build -j16 >/dev/null
-ctest --test-dir /repo/_build -j8 --timeout 900 "$@"
+rc=0
+for t in BasicTests BuildSystemTests CAPITests CASTests CoreTests EvoTests NinjaTests; do
+  if [ -x /repo/_build/bin/$t ]; then
+    ( cd /repo/_build && ./bin/$t "$@" ) || rc=1
+  fi
+done
+exit $rc
